@@ -47,6 +47,247 @@ theorem parseRadixAux_digits (acc : Nat) (ds : List (Fin 10 × Nat)) :
     obtain ⟨d, u⟩ := p
     simp only [List.map_cons, parseRadixAux, hexVal_digitChar d, d.isLt, if_true, horner, ih]
 
+/-! ## the num / suffix split of `Lexer::number` -/
+
+/-- the text `b` does not continue a run of `p` characters -/
+def Stops (p : Char → Bool) : List Char → Prop
+  | [] => True
+  | c :: _ => p c = false
+
+theorem eatWhile_all (p : Char → Bool) (a b : List Char) (ha : ∀ c ∈ a, p c = true) (hb : Stops p b) :
+    eatWhile p (a ++ b) = (a, b) := by
+  induction a with
+  | nil =>
+    cases b with
+    | nil => rfl
+    | cons c b => simp only [Stops] at hb; simp [eatWhile, hb]
+  | cons c a ih =>
+    have hc : p c = true := ha c (by simp)
+    have := ih (fun x hx => ha x (by simp [hx]))
+    simp [eatWhile, hc, this]
+
+theorem spellDigits_rotoDigits (ds : List (Fin 10 × Nat)) : ∀ c ∈ spellDigits ds, isRotoDigit c = true := by
+  induction ds with
+  | nil => simp [spellDigits]
+  | cons p ds ih =>
+    obtain ⟨d, u⟩ := p
+    intro c hc
+    simp only [spellDigits, List.mem_cons, List.mem_append, List.mem_replicate] at hc
+    rcases hc with h | ⟨_, h⟩ | h
+    · subst h; simp [isRotoDigit, isDigit_digitChar d]
+    · subst h; decide
+    · exact ih c h
+
+/-- the text does not start with `.`, `e`, `E` -/
+def PlainStart : List Char → Prop
+  | [] => True
+  | c :: _ => c ≠ '.' ∧ c ≠ 'e' ∧ c ≠ 'E'
+
+/-- nothing of the float block applies when the text does not start with `.`, `e`, `E` -/
+theorem floatBlock_plain (xs : Char → Bool) (t : List Char) (h : PlainStart t) :
+    floatBlock xs t = (false, [], t) := by
+  cases t with
+  | nil => simp [floatBlock, floatBrk, floatFrac, floatExp]
+  | cons c t =>
+    obtain ⟨h1, h2, h3⟩ := h
+    have hb : floatBrk xs (c :: t) = false := by
+      unfold floatBrk; split
+      · rename_i heq; simp at heq; exact absurd heq.1 h1
+      · rfl
+    have hf : floatFrac (c :: t) = (false, [], c :: t) := by
+      unfold floatFrac; split
+      · rename_i heq; simp at heq; exact absurd heq.1 h1
+      · rfl
+    simp [floatBlock, hb, hf, floatExp, h2, h3]
+
+/-- `10.hello`, `10..`, `10._x`: the edge case keeps the integer -/
+theorem floatBlock_brk (xs : Char → Bool) (c : Char) (r : List Char)
+    (h : (xs c || c == '.' || c == '_') = true) :
+    floatBlock xs ('.' :: c :: r) = (false, [], '.' :: c :: r) := by
+  simp [floatBlock, floatBrk, h]
+
+theorem lexNumber_of_digit (xs xc : Char → Bool) (c0 : Char) (tl : List Char) (hd : isDigit c0 = true) :
+    lexNumber xs xc (c0 :: tl) =
+      some { isFloat := (floatBlock xs (eatWhile isRotoDigit (c0 :: tl)).2).1,
+             num := (eatWhile isRotoDigit (c0 :: tl)).1 ++ (floatBlock xs (eatWhile isRotoDigit (c0 :: tl)).2).2.1,
+             suffix := (eatWhile (fun c => xc c || c == '_') (floatBlock xs (eatWhile isRotoDigit (c0 :: tl)).2).2.2).1,
+             rest := (eatWhile (fun c => xc c || c == '_') (floatBlock xs (eatWhile isRotoDigit (c0 :: tl)).2).2.2).2 } := by
+  simp [lexNumber, hd]
+
+/-- every integer suffix is empty or starts with `i` / `u` -/
+theorem intSuffix_head (suffix : List Char) (hs : suffix ∈ intSuffixes) :
+    suffix = [] ∨ ∃ c tl, suffix = c :: tl ∧ (c = 'i' ∨ c = 'u') := by
+  simp only [intSuffixes, List.map_cons, List.map_nil, List.mem_cons, List.not_mem_nil, or_false] at hs
+  rcases hs with h | h | h | h | h | h | h | h | h <;> subst h
+  all_goals first
+    | (left; rfl)
+    | (right; exact ⟨'i', _, rfl, Or.inl rfl⟩)
+    | (right; exact ⟨'u', _, rfl, Or.inr rfl⟩)
+
+/-- What may follow an integer literal `digits suffix` for the token to end
+    there: not a character the suffix scan would eat (`XID_Continue` or `_`);
+    and after a literal WITHOUT suffix also not a digit, not `e` / `E` (an
+    exponent) and not a `.` — unless the `.` is followed by an identifier start,
+    a second `.` or `_` (`10.hello`, `10..`, `10._x`: the documented edge case,
+    the integer is followed by a field access / range). After a suffix any
+    such text may follow: `5i32.to_string()`. -/
+def IntBoundary (xs xc : Char → Bool) (suffix rest : List Char) : Prop :=
+  Stops (fun c => xc c || c == '_') rest ∧
+  (suffix = [] → Stops isRotoDigit rest ∧
+    (PlainStart rest ∨ ∃ c r, rest = '.' :: c :: r ∧ (xs c || c == '.' || c == '_') = true))
+
+theorem lexNumber_digits (xs xc : Char → Bool) (d : Fin 10 × Nat) (ds : List (Fin 10 × Nat))
+    (suffix rest : List Char)
+    (hs : suffix = [] ∨ ∃ c tl, suffix = c :: tl ∧ (c = 'i' ∨ c = 'u' ∨ c = 'f'))
+    (hx : ∀ c ∈ suffix, xc c = true) (hb : IntBoundary xs xc suffix rest) :
+    lexNumber xs xc (spellDigits (d :: ds) ++ (suffix ++ rest)) =
+      some { isFloat := false, num := spellDigits (d :: ds), suffix := suffix, rest := rest } := by
+  obtain ⟨hstop, hnosuf⟩ := hb
+  have hdig : Stops isRotoDigit (suffix ++ rest) ∧ floatBlock xs (suffix ++ rest) = (false, [], suffix ++ rest) := by
+    rcases hs with h | ⟨c, tl, h, hc⟩
+    · subst h
+      obtain ⟨h1, h2⟩ := hnosuf rfl
+      refine ⟨by simpa using h1, ?_⟩
+      rcases h2 with h2 | ⟨c, r, hr, hbrk⟩
+      · simpa using floatBlock_plain xs rest h2
+      · subst hr; simpa using floatBlock_brk xs c r hbrk
+    · subst h
+      have hnd : isRotoDigit c = false := by rcases hc with h | h | h <;> subst h <;> decide
+      have hp : PlainStart (c :: (tl ++ rest)) := by
+        rcases hc with h | h | h <;> subst h <;> exact ⟨by decide, by decide, by decide⟩
+      exact ⟨by simpa [Stops] using hnd, by simpa using floatBlock_plain xs _ hp⟩
+  obtain ⟨hstopd, hfb⟩ := hdig
+  have heat := eatWhile_all isRotoDigit (spellDigits (d :: ds)) (suffix ++ rest)
+    (spellDigits_rotoDigits _) hstopd
+  have hsuf := eatWhile_all (fun c => xc c || c == '_') suffix rest
+    (fun c hc => by simp [hx c hc]) hstop
+  obtain ⟨dd, u⟩ := d
+  have hcons : spellDigits ((dd, u) :: ds) ++ (suffix ++ rest) =
+      digitChar dd.val :: ((List.replicate u '_' ++ spellDigits ds) ++ (suffix ++ rest)) := by
+    simp [spellDigits]
+  rw [hcons, lexNumber_of_digit xs xc _ _ (isDigit_digitChar dd), ← hcons, heat]
+  simp only [hfb, hsuf, List.append_nil]
+
+theorem lexNumber_int (xs xc : Char → Bool) (d : Fin 10 × Nat) (ds : List (Fin 10 × Nat))
+    (suffix rest : List Char) (hs : suffix ∈ intSuffixes) (hx : ∀ c ∈ suffix, xc c = true)
+    (hb : IntBoundary xs xc suffix rest) :
+    lexNumber xs xc (spellDigits (d :: ds) ++ (suffix ++ rest)) =
+      some { isFloat := false, num := spellDigits (d :: ds), suffix := suffix, rest := rest } := by
+  refine lexNumber_digits xs xc d ds suffix rest ?_ hx hb
+  rcases intSuffix_head suffix hs with h | ⟨c, tl, h, hc⟩
+  · exact Or.inl h
+  · exact Or.inr ⟨c, tl, h, by rcases hc with h | h <;> simp [h]⟩
+
+theorem digitChar_ne_dot : ∀ d : Fin 10, (digitChar d.val == '.') = false := by decide
+
+/-- the text does not start with an exponent letter -/
+def NoExpStart : List Char → Prop
+  | [] => True
+  | c :: _ => c ≠ 'e' ∧ c ≠ 'E'
+
+theorem floatExp_plain (b : Bool) (fl t : List Char) (h : NoExpStart t) : floatExp b fl t = (b, fl, t) := by
+  cases t with
+  | nil => rfl
+  | cons c t => obtain ⟨h1, h2⟩ := h; simp [floatExp, h1, h2]
+
+def floatSuffixes : List (List Char) := ["f32", "f64", ""].map String.toList
+
+theorem floatSuffix_head (suffix : List Char) (hs : suffix ∈ floatSuffixes) :
+    suffix = [] ∨ ∃ tl, suffix = 'f' :: tl := by
+  simp only [floatSuffixes, List.map_cons, List.map_nil, List.mem_cons, List.not_mem_nil, or_false] at hs
+  rcases hs with h | h | h <;> subst h
+  · right; exact ⟨_, rfl⟩
+  · right; exact ⟨_, rfl⟩
+  · left; rfl
+
+/-- What may follow a float literal `digits . digits suffix` for the token to
+    end there: not `XID_Continue` / `_`; without suffix also not a digit and not
+    an exponent letter. A `.` may follow: `2.0f64.pow(2.0)`, `2.5.abs()`. -/
+def FloatBoundary (xc : Char → Bool) (suffix rest : List Char) : Prop :=
+  Stops (fun c => xc c || c == '_') rest ∧ (suffix = [] → Stops isRotoDigit rest ∧ NoExpStart rest)
+
+theorem lexNumber_float_point (xs xc : Char → Bool) (d f : Fin 10 × Nat) (ds fs : List (Fin 10 × Nat))
+    (suffix rest : List Char) (hs : suffix ∈ floatSuffixes) (hx : ∀ c ∈ suffix, xc c = true)
+    (hxs : ∀ k : Fin 10, xs (digitChar k.val) = false) (hb : FloatBoundary xc suffix rest) :
+    lexNumber xs xc (spellDigits (d :: ds) ++ ('.' :: (spellDigits (f :: fs) ++ (suffix ++ rest)))) =
+      some { isFloat := true, num := spellDigits (d :: ds) ++ '.' :: spellDigits (f :: fs),
+             suffix := suffix, rest := rest } := by
+  obtain ⟨hstop, hnosuf⟩ := hb
+  have hsr : Stops isRotoDigit (suffix ++ rest) ∧ NoExpStart (suffix ++ rest) := by
+    rcases floatSuffix_head suffix hs with h | ⟨tl, h⟩
+    · subst h; simpa using hnosuf rfl
+    · subst h; exact ⟨by show isRotoDigit 'f' = false; decide, by decide, by decide⟩
+  have heat1 := eatWhile_all isRotoDigit (spellDigits (d :: ds)) ('.' :: (spellDigits (f :: fs) ++ (suffix ++ rest)))
+    (spellDigits_rotoDigits _) (by show isRotoDigit '.' = false; decide)
+  have heat2 := eatWhile_all isRotoDigit (spellDigits (f :: fs)) (suffix ++ rest) (spellDigits_rotoDigits _) hsr.1
+  have hsuf := eatWhile_all (fun c => xc c || c == '_') suffix rest (fun c hc => by simp [hx c hc]) hstop
+  have hfb : floatBlock xs ('.' :: (spellDigits (f :: fs) ++ (suffix ++ rest))) =
+      (true, '.' :: spellDigits (f :: fs), suffix ++ rest) := by
+    obtain ⟨ff, u⟩ := f
+    have hbrk : floatBrk xs ('.' :: (spellDigits ((ff, u) :: fs) ++ (suffix ++ rest))) = false := by
+      have h1 := digitChar_ne_underscore ff
+      have h2 : (digitChar ff.val == '.') = false := digitChar_ne_dot ff
+      simp only [spellDigits, List.cons_append, floatBrk, hxs ff, h2, Bool.or_false, Bool.false_or]
+      simpa using h1
+    simp only [floatBlock, hbrk, Bool.false_eq_true, if_false, floatFrac, heat2]
+    exact floatExp_plain _ _ _ hsr.2
+  obtain ⟨dd, u⟩ := d
+  have hcons : spellDigits ((dd, u) :: ds) ++ ('.' :: (spellDigits (f :: fs) ++ (suffix ++ rest))) =
+      digitChar dd.val :: ((List.replicate u '_' ++ spellDigits ds) ++ ('.' :: (spellDigits (f :: fs) ++ (suffix ++ rest)))) := by
+    simp [spellDigits]
+  rw [hcons, lexNumber_of_digit xs xc _ _ (isDigit_digitChar dd), ← hcons, heat1]
+  simp only [hfb, hsuf]
+
+/-! ## `\\u{…}` -/
+
+/-- value of hex digits read left to right, starting from `v` -/
+def hexFold : Nat → List Char → Nat
+  | v, [] => v
+  | v, c :: cs => hexFold (v * 16 + (hexVal c).getD 0) cs
+
+theorem hexVal_ne (c : Char) (d : Nat) (h : hexVal c = some d) : c ≠ '_' ∧ c ≠ '}' := by
+  have h1 : hexVal '_' = none := by decide
+  have h2 : hexVal '}' = none := by decide
+  constructor <;> (intro hc; subst hc; simp_all)
+
+theorem unicodeRest_digits (v n : Nat) (cs rest : List Char) (hcs : ∀ c ∈ cs, (hexVal c).isSome = true)
+    (hlen : n + cs.length ≤ 6) :
+    unicodeRest v n (cs ++ '}' :: rest) = some (hexFold v cs, n + cs.length, rest) := by
+  induction cs generalizing v n with
+  | nil =>
+    simp only [List.nil_append, unicodeRest, List.length_nil, Nat.add_zero, hexFold]
+    have : ¬ n > 6 := by simp at hlen; omega
+    simp [this]
+  | cons c cs ih =>
+    have hc := hcs c (by simp)
+    obtain ⟨d, hd⟩ := Option.isSome_iff_exists.mp hc
+    obtain ⟨h1, h2⟩ := hexVal_ne c d hd
+    simp only [List.length_cons] at hlen
+    have hn : ¬ n + 1 > 6 := by omega
+    simp only [List.cons_append, unicodeRest, beq_iff_eq, h1, h2, if_false, hd, hn, hexFold, Option.getD_some]
+    rw [ih _ _ (fun x hx => hcs x (by simp [hx])) (by omega)]
+    simp only [List.length_cons, Option.some.injEq, Prod.mk.injEq, true_and, and_true]; omega
+
+/-- `\u{H…}`: one to six hex digits (either case) denote the scalar value they
+    spell, wherever the escape stands -/
+theorem unescape_unicode (c : Char) (cs rest : List Char) (d : Nat) (hd : hexVal c = some d)
+    (hcs : ∀ x ∈ cs, (hexVal x).isSome = true) (hlen : cs.length ≤ 5)
+    (hv : isScalar (hexFold d cs) = true) :
+    unescape ('\\' :: 'u' :: '{' :: c :: (cs ++ '}' :: rest)) =
+      (unescape rest).map (Char.ofNat (hexFold d cs) :: ·) := by
+  have hr := unicodeRest_digits d 1 cs rest hcs (by omega)
+  rw [unescape]
+  simp only [hd]
+  split
+  · rename_i v n r h
+    rw [hr] at h
+    simp only [Option.some.injEq, Prod.mk.injEq] at h
+    obtain ⟨rfl, _, rfl⟩ := h
+    simp [hv]
+  · rename_i h
+    rw [hr] at h
+    simp at h
+
 end RotoV.Literal
 
 namespace RotoV.FString
